@@ -364,7 +364,9 @@ class Parser:
             condition = self.parse_expression(pstate, _PREC_IF)
             pstate.expect(_else)
             pstate.advance()
-            else_expr = self.parse_expression(pstate)
+            # the else branch extends as far as a conditional expression can:
+            # it ends at a comma or at a slice colon
+            else_expr = self.parse_expression(pstate, _PREC_IF - 1)
             left_exp = If(condition, then_expr, else_expr)
             did_something = True
         elif next_tag is _dot and _PREC_CALL > min_precedence:
